@@ -1,6 +1,7 @@
 package drv
 
 import (
+	"runtime"
 	"strings"
 	"sync"
 	"sync/atomic"
@@ -23,19 +24,20 @@ type recExp struct {
 	victim string   // WRITE | SETATTR
 	steps  []string // intruder script
 	pre    string   // "restart": the server is restarted before the victim starts (the allocator then hands out the lowest free number)
+	hold   string   // "": at the victim's first abort (it holds no lock and has not helped yet); "relock": at its first lock request after it has helped the truncation to its end (what it saw under shrinker.DoShrink's locks is no longer protected)
 }
 
 func recycleExps() []recExp {
 	var out []recExp
 	for _, v := range []string{"WRITE", "SETATTR", "SETATTR0"} {
 		out = append(out,
-			recExp{v, []string{"remove", "finish", "cycle", "create", "writeg"}, ""},
-			recExp{v, []string{"remove", "finish", "cycle", "mkdir"}, ""},
-			recExp{v, []string{"remove", "finish", "cycle", "symlink"}, ""},
-			recExp{v, []string{"remove", "finish"}, ""},
-			recExp{v, []string{"finish"}, ""},
-			recExp{v, []string{"remove", "finish", "cycle", "create", "writeg", "removeg"}, ""},
-			recExp{v, []string{"rename", "finish", "cycle", "create", "writeg"}, ""},
+			recExp{v, []string{"remove", "finish", "cycle", "create", "writeg"}, "", ""},
+			recExp{v, []string{"remove", "finish", "cycle", "mkdir"}, "", ""},
+			recExp{v, []string{"remove", "finish", "cycle", "symlink"}, "", ""},
+			recExp{v, []string{"remove", "finish"}, "", ""},
+			recExp{v, []string{"finish"}, "", ""},
+			recExp{v, []string{"remove", "finish", "cycle", "create", "writeg", "removeg"}, "", ""},
+			recExp{v, []string{"rename", "finish", "cycle", "create", "writeg"}, "", ""},
 		)
 	}
 	// a directory handle: REMOVE/LOOKUP of an entry with a smaller number gives up the directory's lock to re-lock in order;
@@ -43,13 +45,41 @@ func recycleExps() []recExp {
 	// there under the same name. The old handle is dead: the victim may have acted before all that, or must be refused.
 	for _, v := range []string{"REMOVED", "LOOKUPD"} {
 		out = append(out,
-			recExp{v, []string{"moveout", "rmdirD", "cycle", "mkdirE", "movein"}, ""},
-			recExp{v, []string{"moveout", "rmdirD", "mkdirE", "movein"}, "restart"}, // (no trip round the ring: the directory's cached inode stays cached)
-			recExp{v, []string{"moveout", "rmdirD", "mkdirE"}, "restart"},
-			recExp{v, []string{"moveout", "rmdirD"}, ""},
+			recExp{v, []string{"moveout", "rmdirD", "cycle", "mkdirE", "movein"}, "", ""},
+			recExp{v, []string{"moveout", "rmdirD", "mkdirE", "movein"}, "restart", ""}, // (no trip round the ring: the directory's cached inode stays cached)
+			recExp{v, []string{"moveout", "rmdirD", "mkdirE"}, "restart", ""},
+			recExp{v, []string{"moveout", "rmdirD"}, "", ""},
+		)
+	}
+	// the victim has helped the truncation to its end and is about to lock the file again; meanwhile the file is filled
+	// again and cut again, too far for one transaction (the background thread is held): the cut-off blocks are still
+	// mapped below the old size when the victim resumes. A victim that extends the file must complete that truncation
+	// first, or data a completed truncation removed is back.
+	for _, v := range []string{"WRITEX", "SETATTRX", "WRITE"} {
+		out = append(out,
+			recExp{v, []string{"refill", "cut0"}, "", "relock"},
+			recExp{v, []string{"refill", "cut100"}, "", "relock"},
+			recExp{v, []string{"refill", "cut0", "refill", "cut100"}, "", "relock"},
+			recExp{v, []string{"refill", "cut0", "remove"}, "", "relock"},
 		)
 	}
 	return out
+}
+
+// stackHas: some frame of the calling goroutine's stack is a function whose name ends in suffix
+func stackHas(suffix string) bool {
+	pc := make([]uintptr, 48)
+	n := runtime.Callers(2, pc)
+	fr := runtime.CallersFrames(pc[:n])
+	for {
+		f, more := fr.Next()
+		if strings.HasSuffix(f.Function, suffix) {
+			return true
+		}
+		if !more {
+			return false
+		}
+	}
 }
 
 // RunRecycleWindows runs the experiments k with k%parts == part (all when parts <= 1).
@@ -79,7 +109,7 @@ func runRecycle(k int, e recExp, t *Trace, seg int) int {
 	var holdShr int32 = 1
 	releaseShr := make(chan struct{})
 	var victimG int64
-	var fired int32
+	var fired, helped int32
 	inWin := make(chan struct{}, 1)
 	resume := make(chan struct{})
 	Mon.Yield = func(ev string) {
@@ -95,6 +125,19 @@ func runRecycle(k int, e recExp, t *Trace, seg int) int {
 				}
 			}
 			return
+		}
+		if e.hold == "relock" {
+			if g != atomic.LoadInt64(&victimG) {
+				return
+			}
+			if ev == "aborted" {
+				atomic.StoreInt32(&helped, 1)
+				return
+			}
+			if !(ev == "want" && atomic.LoadInt32(&helped) == 1 && !stackHas(".DoShrink")) {
+				return
+			}
+			ev = "aborted" // the window: falls through to the hold below
 		}
 		if ev == "aborted" && g == atomic.LoadInt64(&victimG) && atomic.CompareAndSwapInt32(&fired, 0, 1) {
 			inWin <- struct{}{}
@@ -207,6 +250,12 @@ func runRecycle(k int, e recExp, t *Trace, seg int) int {
 	case "SETATTR":
 		v = NewCall("SETATTR")
 		v.Fh, v.SetSize, v.Size = fhF, true, 100
+	case "WRITEX": // extends the file beyond whatever the intruder cut it to
+		v = NewCall("WRITE")
+		v.Fh, v.Off, v.Cnt, v.DLen, v.Data, v.Stable = fhF, 8192, 1, 1, []Run{{1, 99}}, 2
+	case "SETATTRX":
+		v = NewCall("SETATTR")
+		v.Fh, v.SetSize, v.Size = fhF, true, 3*4096
 	case "REMOVED":
 		v = NewCall("REMOVE")
 		v.Fh, v.Name, v.NLen = dD.RFh, "c", 1
@@ -280,6 +329,17 @@ func runRecycle(k int, e recExp, t *Trace, seg int) int {
 					}
 					mk(2, rm, dd, "g")
 				}
+			case "refill":
+				c := NewCall("WRITE")
+				c.Fh, c.Off, c.Cnt, c.DLen, c.Data, c.Stable = fhF, 0, 4096, 4096, []Run{{4096, 66}}, 2
+				do(2, c, true)
+				c = NewCall("SETATTR")
+				c.Fh, c.SetSize, c.Size = fhF, true, 700*4096
+				do(2, c, true)
+			case "cut0", "cut100":
+				c := NewCall("SETATTR") // too far for one transaction; the background thread it starts is held like the first one
+				c.Fh, c.SetSize, c.Size = fhF, true, map[string]int{"cut0": 0, "cut100": 100}[st]
+				do(2, c, true)
 			case "moveout":
 				c := NewCall("RENAME")
 				c.Fh, c.Name, c.Fh2, c.Name2 = dD.RFh, "c", root, "c2"
@@ -321,6 +381,14 @@ func runRecycle(k int, e recExp, t *Trace, seg int) int {
 			}
 		}
 		close(resume)
+	}
+	if e.hold == "relock" {
+		// the background threads stay held until the victim has answered: a request must complete a pending
+		// truncation itself before it extends the file, it cannot count on the threads getting there first
+		select {
+		case <-vdone:
+		case <-time.After(20 * time.Second):
+		}
 	}
 	release()
 	wedged := false
